@@ -89,6 +89,26 @@ Theorem C07_timeout_specification_refined : forall cfg, cfg_positive cfg -> cfg_
 Proof. exact chk_C07_on_model. Qed.
 Print Assumptions C07_timeout_specification_refined.
 
+(* "until then the entry always authorises relaying": on every trace of the model, whenever a permission or a channel
+   binding is present before a Send / ChannelData / peer datagram (UDP allocation, datagram within the size limits) the
+   datagram is forwarded, exactly once; together with the refinement above this is the predicate Check/C07Check.chk
+   evaluated on the implementation's traces *)
+Theorem C07_present_entries_authorise_relaying : forall cfg ep h,
+  chk_C05_live cfg [] [] (rc_steps (model_case cfg ep h)) = true.
+Proof.
+  intros cfg ep h. unfold model_case. cbn [rc_steps]. change (@nil obs_alloc) with (listing_of (init ep)).
+  apply chk_C05_live_model; [apply inv_init|intros a []].
+Qed.
+Print Assumptions C07_present_entries_authorise_relaying.
+From Turn Require Import C07Check.
+Theorem C07_checked_predicate_holds_on_every_model_trace : forall cfg, cfg_positive cfg -> cfg_seconds cfg ->
+  forall ep h, C07Check.chk (model_case cfg ep h) = true.
+Proof.
+  intros cfg Hp Hs ep h. unfold C07Check.chk. rewrite (chk_C07_on_model cfg Hp Hs ep h). cbn [andb rc_cfg model_case].
+  exact (C07_present_entries_authorise_relaying cfg ep h).
+Qed.
+Print Assumptions C07_checked_predicate_holds_on_every_model_trace.
+
 (* the reconstructed permission table agrees key by key with the model's, across any step *)
 Theorem C07_reconstructed_permission_table : forall cfg, cfg_positive cfg -> cfg_seconds cfg ->
   forall s e s' acts pe ce, inv cfg s -> dl_inv s -> pagree pe s -> step cfg s e = (s', acts) ->
